@@ -649,15 +649,20 @@ func GenerateMainfile(binaryName, path string, info *parse.PkgInfo) error {
 
 	debug.Println("writing new file at", path)
 	if err := mainfileTemplate.Execute(f, data); err != nil {
+		// don't leave a partly written file behind
+		f.Close()
+		os.Remove(path)
 		return fmt.Errorf("can't execute mainfile template: %v", err)
 	}
 	if err := f.Close(); err != nil {
+		os.Remove(path)
 		return fmt.Errorf("error closing generated mainfile: %v", err)
 	}
 	// we set an old modtime on the generated mainfile so that the go tool
 	// won't think it has changed more recently than the compiled binary.
 	longAgo := time.Now().Add(-time.Hour * 24 * 365 * 10)
 	if err := os.Chtimes(path, longAgo, longAgo); err != nil {
+		os.Remove(path)
 		return fmt.Errorf("error setting old modtime on generated mainfile: %v", err)
 	}
 	return nil
